@@ -1,7 +1,7 @@
 """C19 - Revision identifiers are canonical."""
 import re
 from ..cfg import cfg_of
-from ..defuse import du_of, walk, peel, callee_name, fmt
+from ..defuse import du_of, walk, peel, callee_name, fmt, inline_calls
 from ..conds import lits_of
 from ..callgraph import cg_of
 from ..common import arg_term, contains_call, call_named, field_path, assigns_of_return
@@ -156,7 +156,7 @@ def run(facts, res):
             if st.rv.kind == "agg" and st.rv.j.get("adt") == "revision::Revision":
                 f = st.rv.j["fields"]
                 ops = st.rv.operands()
-                return {n: du.operand_term(o, 24) for n, o in zip(f, ops)}, bi
+                return {n: inline_calls(du.operand_term(o, 24), facts) for n, o in zip(f, ops)}, bi
         return None, None
 
     def tail_ok(t, parent_param):
@@ -197,6 +197,12 @@ def run(facts, res):
                         if tt[0] == "agg" and tt[2] == "None" and l.variants == {"None"}:
                             none_under = True
             ok_t = ok_t and some_under and none_under
+            # equivalent idiom: `parent.map(|p| tail(p))` - Some iff the parent is Some by construction of Option::map
+            tt = tl
+            while tt[0] == "var":
+                tt = tt[3]
+            if not ok_t and tt[0] == "call" and callee_name(tt) == "map" and tt[2] and peel(tt[2][0])[0] == "param" and peel(tt[2][0])[1] == 3:
+                ok_t = tail_ok(tt, 3)
         res.instance("P2", "Revision::new: index=arg %s, digest=arg %s, tail=Some(H(parent.to_string())[..7]) iff parent is Some %s" % (ok_i, ok_d, ok_t), nb.loc())
         if not (ok_i and ok_d and ok_t):
             res.violation("P2", "Revision::new|field-provenance", "Revision::new: index from argument: %s, digest from argument: %s, tail = hash of the parent's printed form iff a parent exists: %s" % (ok_i, ok_d, ok_t), nb.loc())
